@@ -23,7 +23,7 @@ NONDET = [
     (r"RandomState::new|^rand::|getrandom", "randomness"),
     (r"Argument::<[^>]*>::new_pointer|as std::fmt::Pointer>::fmt|fmt::Pointer", "pointer formatting"),
     (r"^std::fs::|^std::net::", "file system / network"),
-    (r"std::sync::(Mutex|RwLock)(<|::)|sync::(poison::)?(mutex|rwlock)::|atomic::Atomic\w+::(fetch_\w+|store|swap|compare_exchange\w*)", "process-wide mutable state"),
+    (r"std::sync::(Mutex|RwLock)(<|::)|sync::(poison::)?(mutex|rwlock)::|atomic::Atomic\w*(::<[^>]*>)?::(fetch_\w+|store|swap|compare_exchange\w*)", "process-wide mutable state"),
 ]
 
 
@@ -256,7 +256,7 @@ def run(ctx):
     obs.append(ob("C20.src/all-bodies", True, "both crates", "%d MIR bodies, %d resolved call sites scanned; %d nondeterministic" % (n_bodies, n_calls, len(nd))))
     pc_nd = nondet_calls(ctx.pc_mir, {"poscontrol"})
     kinds = {w for b, c, w in pc_nd if b["root"] == "nondeterministic_sources"}
-    obs.append(ob("C20.src/positive-control", {"wall clock", "environment", "pointer formatting"} <= kinds, "fixtures/poscontrol/src/lib.rs",
+    obs.append(ob("C20.src/positive-control", {"wall clock", "environment", "pointer formatting", "process-wide mutable state"} <= kinds, "fixtures/poscontrol/src/lib.rs",
                   "detector found %r in the fixture" % sorted(kinds)))
     if n_bodies < 500:
         obs.append(ob("C20.floor/bodies", False, "mir facts", "only %d MIR bodies extracted (floor 500): extraction incomplete" % n_bodies))
